@@ -26,6 +26,18 @@ def shapes(tier, seed):
             for labs, node, p in templates.unary_sequences(("leaf", "X"), LEAFCOLS, depth, level, labels=labels):
                 out.append({"kind": "prog", "eng": eng, "labels": list(labs), "prog": node, "params": p.params,
                             "cons": p.cons, "n": n if depth < 3 else 3})
+        # one operation object applied twice in a row (merging / eliding must not look at object identity)
+        for labs, node, p in templates.unary_sequences(("leaf", "X"), LEAFCOLS, 1, "full"):
+            tw = ("twice", node)
+            try:
+                from ..prog import cols_of
+                cols_of(tw, LEAFCOLS)
+            except Exception:  # noqa: BLE001 - e.g. a calculation cannot be applied twice
+                continue
+            out.append({"kind": "prog", "eng": eng, "labels": list(labs) + ["same object twice"], "prog": tw, "params": p.params, "cons": p.cons, "n": n})
+            for l2, n2, p2 in templates.unary_sequences(tw, LEAFCOLS, 1, "full", labels=("slice s:e", "sort a", "sel a>k", "dedup")):
+                out.append({"kind": "prog", "eng": eng, "labels": list(labs) + ["same object twice"] + list(l2), "prog": n2, "params": {**p.params, **p2.params},
+                            "cons": p.cons + p2.cons, "n": 3})
         if tier == "thorough":
             big = ("slice s:e", "slice :e", "slice s:", "sort a", "sort a,-a", "sel a>k", "sel not", "proj -a")
             for labs, node, p in templates.unary_sequences(("leaf", "X"), LEAFCOLS, 4, "full", labels=big):
